@@ -3,6 +3,7 @@ package mon
 import (
 	"bytes"
 	"fmt"
+	"path"
 	"sort"
 	"strings"
 
@@ -284,6 +285,40 @@ func (C06Mon) After(w *core.World, st *core.Step) {
 			}
 		}
 	}
+	if pa := ParseArgv(st.Argv); st.Cmd() == "add" && st.Exit == 0 && st.Cwd == "" && len(pa.Pos) > 0 && len(pa.Flags) == 0 && post.IndexErr == nil {
+		// the entries last written: `add` of plain files leaves exactly the former paths plus the named ones, each with
+		// its complete path bytes
+		wt := st.Pre.WT()
+		pre, _ := idx(st.Pre)
+		want := map[string]bool{}
+		for p := range pre {
+			want[p] = true
+		}
+		plain := true
+		for p := range wt {
+			if path.Base(p) == ".goitignore" {
+				plain = false
+			}
+		}
+		for _, q := range pa.Pos {
+			q2 := path.Clean(q)
+			if _, isFile := wt[q2]; !isFile || !gen.ValidPath(q2) || strings.HasPrefix(q, "/") || strings.HasPrefix(q2, "../") || InGoit(q2) || st.Pre.Odd[q2] != "" {
+				plain = false
+				break
+			}
+			want[q2] = true
+		}
+		if plain && conflictFree(SortedSet(want)) {
+			c.Oracle("C06.entries-written")
+			got := map[string]bool{}
+			for _, e := range post.Index.Entries {
+				got[e.Path] = true
+			}
+			if !sameStringSet(SortedSet(got), SortedSet(want)) {
+				w.Fail("C06.entries-written", "tracked-set-differs", "add", "after %s the staging area holds %q, the entries written are %q", st.String(), clipList(SortedSet(got), 8), clipList(SortedSet(want), 8))
+			}
+		}
+	}
 	if bytes.Equal(raw0, raw1) {
 		return
 	}
@@ -330,6 +365,14 @@ func runC06CLI(c *core.Ctx) {
 		for _, e := range extra {
 			if conflictFree(append(append([]string{}, P...), e)) && !contains(P, e) {
 				P = append(P, e)
+			}
+		}
+		if w.Hist%5 == 2 {
+			// names that are not valid UTF-8 (legal on Linux), differing in one such byte only
+			for _, e := range [][]string{{"caf\xe9.txt", "caf\xe8.txt"}, {"d\xff/x", "d\xfe/x"}, {"\xc3(", "\xc3\x28.txt", "\xef\xbf\xbd"}, {"a\x80", "a\x81/b\xed\xa0\x80"}}[(w.Hist/5)%4] {
+				if conflictFree(append(append([]string{}, P...), e)) && !contains(P, e) {
+					P = append(P, e)
+				}
 			}
 		}
 		wl := NewWalker(w, gen.NameOpts{}, nil)
